@@ -383,6 +383,14 @@ def run(ctx: Ctx):
                     exprs += [v for v in res_i(x) if kind(v) == "?"]
         diffs = [x for e_ in exprs for x in ast.walk(e_) if isinstance(x, ast.BinOp) and isinstance(x.op, ast.Sub)
                  and {kind(x.left), kind(x.right)} <= {"D", "DT", "ORD"}]
+        fdi_ = ctx.dep.of(idxf)
+        if "field:interval_start" not in data(fdi_.deps_of(r.value)):
+            ctx.ob("R05.6", f"{idxf.qual}: {name} index {norm(r.value)[:60]}", (idxf, r), False,
+                   f"the {name} period index does not depend on the interval start: periods are counted as fixed-length blocks from "
+                   "the first slot instead of calendar days / weeks, so for a project that does not start at midnight (on a Monday) one "
+                   "calendar period is split over two counters and the limit can be exceeded",
+                   key=key_of("R05.6", idxf, None, f"{name} index"))
+            continue
         if not diffs:
             from ..model import Inconclusive
             raise Inconclusive(f"Limit._idx_to_sb_idx: {name} index {norm(r.value)[:60]} is not a difference of two dates the rule can type")
